@@ -1,0 +1,41 @@
+//go:build verif
+
+package keyvalue
+
+import (
+	"context"
+
+	"github.com/anyproto/any-sync/commonspace/object/keyvalue/keyvaluestorage"
+	"github.com/anyproto/any-sync/commonspace/spacesyncproto"
+	"github.com/anyproto/any-sync/net/peer"
+)
+
+// Verification hooks (build tag `verif` only): let an external harness put the real keyValueService around an
+// existing store (what Init does, minus the app components) and run ONE synchronous exchange with a peer
+// (syncWithPeer is what the limiter's goroutine runs for SyncWithPeer). No behaviour is added or changed.
+
+// VerifService wraps the real keyValueService; the exported methods of the service
+// (HandleStoreDiffRequest, HandleStoreElementsRequest, HandleMessage, SyncWithPeer, DefaultStore, Close) are promoted.
+type VerifService struct{ *keyValueService }
+
+// VerifNewService builds the service exactly as Init does, around a store the caller has created.
+func VerifNewService(ctx context.Context, spaceId, storageId string, store keyvaluestorage.Storage) *VerifService {
+	cctx, cancel := context.WithCancel(ctx)
+	return &VerifService{&keyValueService{
+		storageId:     storageId,
+		spaceId:       spaceId,
+		ctx:           cctx,
+		cancel:        cancel,
+		limiter:       newConcurrentLimiter(),
+		defaultStore:  store,
+		clientFactory: spacesyncproto.ClientFactoryFunc(spacesyncproto.NewDRPCSpaceSyncClient),
+	}}
+}
+
+// VerifSyncNow runs the body of one scheduled sync synchronously and returns its error.
+func (v *VerifService) VerifSyncNow(ctx context.Context, p peer.Peer) error {
+	return v.syncWithPeer(ctx, p)
+}
+
+// VerifApplyBatchSize is the chunk size of the pulling side (applyBatchSize).
+const VerifApplyBatchSize = applyBatchSize
